@@ -399,7 +399,7 @@ def translator_tie(specs):
             path = os.path.join(REPO, sp["rust"])
             try:
                 txt, res, _, _ = rs2v.translate_file(path, sp["gen"], set(sp["fns"]) | set(sp.get("stmts", {})) | set(sp.get("aux", [])), sp.get("types", "Model.Types"),
-                                                    sp.get("extra_structs"), sp.get("extra_enums"), sp.get("call_map"), sp.get("type_map"), tuple(sp.get("trait_impls", ())))
+                                                    sp.get("extra_structs"), sp.get("extra_enums"), sp.get("call_map"), sp.get("type_map"), tuple(sp.get("trait_impls", ())), sp.get("method_map"), sp.get("call_ty"))
             except Exception as e:  # noqa
                 for fn in list(sp["fns"]) + list(sp.get("stmts", {})):
                     items.append(("%s.%s" % (sp["gen"], fn), False, "translator failed on %s: %r" % (sp["rust"], e)))
